@@ -45,6 +45,7 @@ SWALLOW_OK = {
     ("component_media", "resolve_file", "RuntimeError"): "inspect-based module lookup falls back to the unresolved path",
     ("component_media", "_get_dir_path_from_component_module_name", "RuntimeError"): "inspect-based module lookup falls back",
     ("util.loader", "get_component_dirs", "TypeError"): "tuple-form STATICFILES_DIRS entry is skipped",
+    ("util.template_tag", "validate_params", "TypeError"): "the try covers only the library's own argument validators (no user code runs inside): they raise plain TypeError with a message, which is re-issued with the tag's name",
     ("app_settings", "InternalSettings._prepare_context_behavior", "ValueError"): "converted to a ValueError with the list of valid values (configuration time)",
 }
 
@@ -80,6 +81,10 @@ def run(chk: Check, proj: Project) -> None:
     s3c_queue_items_immutable(chk, proj, w)
     s3d_annotation(chk, proj, w)
     s3e_user_code_under_path(chk, proj, w)
+    from . import C16
+
+    chk.borrow("S4", "a render that fails while the class's files are being loaded leaves the CLASS as if it had never been tried: the 'resolved' flag is stored only after everything that can fail (a later render raises the same error again, and works once the file exists) (shared with C16-S4)",
+               lambda sub: C16.s4(sub, proj, proj.mod("component_media")), only=lambda o: "resolved-is-last" in o.construct)
     chk.call_sites = w.cg.n_calls
 
 
@@ -318,6 +323,12 @@ def s1e_release_guards(chk: Check, proj: Project, w) -> None:
                    f"`{short(st.test)}` tests the key only" if not foreign else
                    f"`{short(foreign[0])}` makes the release return early without looking at `{key}`: a component that registered while another provider's data was alive and unregisters after that data is gone stays in all_reference_ids for good (one entry per render)")
     chk.floor("S1e", n, 1)
+    # the id itself leaves the id table whatever the providers' tables hold: the removal is a statement of the function body
+    idrm = [c for c in ast.walk(f) if isinstance(c, ast.Call) and isinstance(c.func, ast.Attribute) and c.func.attr in ("remove", "discard", "pop") and norm(c.func.value) == "all_reference_ids"]
+    direct = [c for c in idrm if enclosing_stmt(c) in f.body]
+    chk.ob("S1e", "perfutil.provide:unregister_provide_reference:id-removed-unconditionally", m.loc((idrm or [f])[0]), bool(direct),
+           "`all_reference_ids` loses the id on every path past the early return" if direct else
+           f"`{short(enclosing_stmt(idrm[0])) if idrm else 'no removal'}` runs only for ids that some provider still lists: a component that registered while an UNRELATED {{% provide %}} was alive (a sibling after `{{% provide %}}..{{% endprovide %}}`) is never forgotten - one id per render, successful or failed")
     for lp in [x for x in ast.walk(f) if isinstance(x, ast.For)]:
         brk = [x for x in ast.walk(lp) if isinstance(x, (ast.Break, ast.Return)) and next((a for a in ancestors(x) if isinstance(a, (ast.For, ast.While))), None) is lp]
         chk.ob("S1e", "perfutil.provide:unregister_provide_reference:visits-every-provider", m.loc(brk[0]) if brk else m.loc(lp), not brk,
@@ -571,10 +582,11 @@ def s3_handlers(chk: Check, proj: Project, w) -> None:
                     continue
                 if isinstance(r.exc, ast.Call) and norm(r.exc.func) in (f"{h.name}.__class__", f"type({h.name})"):
                     continue
-                if cls == caught:
+                if cls == caught and not isinstance(r.exc, ast.Call):
                     continue
                 ok_id = False
-                why = f"raises {cls} instead of the caught {caught}"
+                why = (f"raises a NEW {cls}(...) in place of the caught object: an instance of a SUBCLASS (a user's `SchemaError(TypeError)`) reaches the caller as a plain {cls}, a different object without the attributes and component path the original carried"
+                       if cls == caught else f"raises {cls} instead of the caught {caught}")
             if not always_exits(h.body) or not rs:
                 why = "does not re-raise on every path (exception swallowed)"
                 ok_id = False
